@@ -48,6 +48,7 @@ type AbsState struct {
 	Opts       map[string]json.RawMessage    `json:"opts,omitempty"` // current option records by name
 	Trackers   map[string]TrackerRec         `json:"trackers"`
 	Domains    map[string]DomRec             `json:"domains"`
+	Bids       map[string]BidRec             `json:"bids,omitempty"` // conversation id -> record and active offer (bid application)
 	Nonce      map[string]int64              `json:"nonce"`    // keeper_ sequence
 	Code       map[string]int64              `json:"code"`     // 1 when the account's keeper record carries a non-empty code hash
 	EvmStore   map[string]map[string]string  `json:"evmStore"` // contract -> slot (hex) -> value (hex)
@@ -214,7 +215,7 @@ func ProjectDump(g *Genesis, dump []KV) *AbsState {
 		RwBal: map[string]int64{}, RwWd: map[string]int64{}, Status: map[string]StatusRec{}, Frozen: map[string]FrozenRec{},
 		Requests: map[string]ReqRec{}, CumVotes: map[string]int64{}, Props: map[string]PropRec{},
 		PropFunds: map[string]map[string]int64{}, PropFundT: map[string]int64{}, PropVotes: map[string]map[string]VoteRec{},
-		Trackers: map[string]TrackerRec{}, Domains: map[string]DomRec{}, Nonce: map[string]int64{}, Code: map[string]int64{}, EvmStore: map[string]map[string]string{}, EvmCode: map[string]int64{},
+		Trackers: map[string]TrackerRec{}, Domains: map[string]DomRec{}, Bids: map[string]BidRec{}, Nonce: map[string]int64{}, Code: map[string]int64{}, EvmStore: map[string]map[string]string{}, EvmCode: map[string]int64{},
 		Bad: []string{}, Unknown: []string{}, Witness: []string{}, ReqTracker: []string{}, RwYears: []YearRec{},
 		Opts: map[string]json.RawMessage{},
 	}
